@@ -115,8 +115,30 @@ type tracingAssembler struct {
 	e     *srvEnv
 }
 
+const bigReply = 12 << 20
+
+// a request for unit 4 is answered with the ordinary reply followed by padding up to bigReply bytes: the write
+// blocks until the client drains its side
+func padBig(received []byte, reply []byte) []byte {
+	if len(received) >= 12 && received[6] == 4 && len(reply) == 11 {
+		out := make([]byte, bigReply)
+		copy(out, reply)
+		return out
+	}
+	return reply
+}
+
 func (a *tracingAssembler) ReceiveRead(ctx context.Context, received []byte, bytesRead int) ([]byte, bool) {
-	return a.inner.ReceiveRead(ctx, received, bytesRead)
+	reply, cl := a.inner.ReceiveRead(ctx, received, bytesRead)
+	return padBig(received, reply), cl
+}
+
+// the same without the optional RawReadTracer interface
+type paddingAssembler struct{ inner server.PacketAssembler }
+
+func (a *paddingAssembler) ReceiveRead(ctx context.Context, received []byte, bytesRead int) ([]byte, bool) {
+	reply, cl := a.inner.ReceiveRead(ctx, received, bytesRead)
+	return padBig(received, reply), cl
 }
 
 func (a *tracingAssembler) Read(data []byte, n int, err error) {
@@ -250,10 +272,18 @@ func runSrv(ts []string) string {
 		}
 	}
 	h := &srvHandler{e}
+	hasBig := strings.Contains(";"+ts[3], ";b")
 	if cfg[4] == '1' {
 		srv.AssemblerCreatorFunc = func(handler server.ModbusHandler) server.PacketAssembler {
 			return &tracingAssembler{inner: &server.ModbusTCPAssembler{Handler: handler}, e: e}
 		}
+	} else if hasBig {
+		srv.AssemblerCreatorFunc = func(handler server.ModbusHandler) server.PacketAssembler {
+			return &paddingAssembler{inner: &server.ModbusTCPAssembler{Handler: handler}}
+		}
+	}
+	if hasBig {
+		srv.WriteTimeout = 120 * time.Second // the default of 50 ms would cut a reply that a slow client drains later
 	}
 	// every scenario process listens on its own loopback address: a port number released by one scenario cannot
 	// be picked up by the listener of another one while this scenario checks that it refuses connections
@@ -331,6 +361,14 @@ func runSrv(ts []string) string {
 		})
 	}
 	pendingID := map[int]int{} // client -> id of the request in flight
+	bigPending := map[int]bool{} // client -> the server is blocked writing a big reply to it
+	isBusy := func(k int) bool {
+		if bigPending[k] {
+			return true
+		}
+		_, busy := e.blockHandler[pendingID[k]]
+		return busy && pendingID[k] != 0
+	}
 	heldInTracer := func(k int) bool {
 		held := false
 		e.with(func() { _, held = e.holdTracer[pendingID[k]] })
@@ -348,6 +386,9 @@ func runSrv(ts []string) string {
 			return nil, false
 		}
 		e.with(func() { e.addrToClient[c.LocalAddr().String()] = k })
+		if tc, ok := c.(*net.TCPConn); ok && hasBig {
+			_ = tc.SetReadBuffer(64 << 10) // a fixed, small receive buffer: what the server cannot send stays in its Write
+		}
 		return &srvClient{conn: c}, true
 	}
 	countStr := func(k int) string {
@@ -636,7 +677,7 @@ func runSrv(ts []string) string {
 				if !tracked[kk] {
 					continue
 				}
-				if _, busy := e.blockHandler[pendingID[kk]]; busy && pendingID[kk] != 0 {
+				if isBusy(kk) {
 					continue
 				}
 				if !clients[kk].waitClosed() {
@@ -672,7 +713,7 @@ func runSrv(ts []string) string {
 				// everything that was idle has been closed by Shutdown; a successful Shutdown leaves nothing
 				for kk := range tracked {
 					if tracked[kk] {
-						if _, busy := e.blockHandler[pendingID[kk]]; busy && pendingID[kk] != 0 && o == "ctx" {
+						if isBusy(kk) && o == "ctx" {
 							continue
 						}
 						if heldInTracer(kk) {
@@ -694,7 +735,7 @@ func runSrv(ts []string) string {
 			// every connection goroutine ends at its next loop iteration unless its handler is blocked
 			for kk := range tracked {
 				if tracked[kk] {
-					if _, busy := e.blockHandler[pendingID[kk]]; busy && pendingID[kk] != 0 {
+					if isBusy(kk) {
 						continue
 					}
 					if heldInTracer(kk) {
@@ -705,6 +746,67 @@ func runSrv(ts []string) string {
 			}
 			if !settle() {
 				o += "-stuck"
+			}
+		case "b":
+			// a request whose (padded) reply does not fit into the socket buffers: the server blocks in Write
+			c := clients[k]
+			if c == nil {
+				o = "nc"
+				break
+			}
+			pendingID[k] = id
+			if _, err := c.conn.Write(fc3Frame(id, 4)); err != nil {
+				o = "eof"
+				break
+			}
+			// only the 11 bytes of the reply proper: the rest stays in the socket, the server stays blocked in Write
+			head := make([]byte, 11)
+			_ = c.conn.SetReadDeadline(time.Now().Add(srvWait))
+			if _, err := io.ReadFull(c.conn, head); err != nil {
+				var ne net.Error
+				if errors.As(err, &ne) && ne.Timeout() {
+					o = "to"
+				} else {
+					o = "eof"
+				}
+				break
+			}
+			want := []byte{byte(id >> 8), byte(id), 0, 0, 0, 5, 4, 3, 2, byte(id >> 8), byte(id)}
+			if string(head) == string(want) {
+				o = "bw"
+				bigPending[k] = true
+			} else {
+				o = fmt.Sprintf("bad%x", head)
+			}
+		case "rb":
+			if !bigPending[k] {
+				o = "-"
+				break
+			}
+			delete(bigPending, k)
+			id = pendingID[k]
+			rest := bigReply - 11
+			buf := make([]byte, 1<<16)
+			_ = clients[k].conn.SetReadDeadline(time.Now().Add(4 * srvWait))
+			for rest > 0 {
+				n, err := clients[k].conn.Read(buf)
+				rest -= n
+				if err != nil {
+					break
+				}
+			}
+			if rest == 0 {
+				o = fmt.Sprintf("r%d", id)
+			} else {
+				o = "cut"
+			}
+			if tracked[k] && (cancelled || o == "cut") {
+				tracked[k] = false
+				if !shutdownStarted || shutdownResult != "" {
+					if !settle() {
+						o += "-stuck"
+					}
+				}
 			}
 		default:
 			o = "?"
